@@ -956,11 +956,11 @@ def swallow_feature(text):
 
 def root_tag(text):
     """name of a known root cause whose trigger is present in the text (used for the failure key only, never for the verdict)"""
-    if swallow_feature(text):
-        return 'lexer.wildcard_after_quoted_text'
     m = mask_texts(text)
     if re.search(r'%[ \t\n]*["(\d.A-Za-z$\']', m):
         return 'grammar.percent_as_binary_operator'
+    if swallow_feature(text):
+        return 'lexer.wildcard_after_quoted_text'
     for pre in re.finditer(r"'[^']*'!", text):
         if not re.match(r"\$?[A-Z]+\$?\d*:\$?[A-Z]+", text[pre.end():]) and \
                 re.search(r"'[^']*'!\$?[A-Z]+\$?\d*:", text[pre.end():]):
@@ -1065,14 +1065,14 @@ def _w_variants(job):
     return res
 
 
-def _pool_map(fn, jobs, procs=16):
+def _pool_map(fn, jobs, procs=16, chunk=None):
     if not jobs:
         return []
     if len(jobs) < 40:
         return [fn(j) for j in jobs]
     ctx = multiprocessing.get_context('fork')
     with ctx.Pool(procs) as pool:
-        return pool.map(fn, jobs, chunksize=max(1, min(64, len(jobs) // (procs * 4))))
+        return pool.map(fn, jobs, chunksize=chunk or max(1, min(64, len(jobs) // (procs * 4))))
 
 
 def _dedupe(fails, limit=25):
@@ -1200,7 +1200,7 @@ def mutation_jobs(tier, rng):
             jobs.append((f, mode, False))
     thorough = tier == 'thorough'
     pair_alpha = APPEND2 if thorough else [')', '+', ',', '%', '1', 'A1']
-    ins_alpha = APPEND1 if thorough else [')', '(', '+', ',', '%', '1', '"x"']
+    ins_alpha = APPEND1 if thorough else [')', '(', '+', ',', '1']
     for b in BASES:
         add(b)
         add(b, 'entry')
@@ -1264,7 +1264,7 @@ def check_mutations(tier, rng):
                      f'sheet prefixes, texts containing separators and doubled quotes) x [one trailing token from {len(APPEND1)} glued / after a blank; '
                      f'two trailing tokens from {14 if tier == "thorough" else 6}^2' + (', three from 6^3' if tier == 'thorough' else '') +
                      '; every single deletion, duplication, adjacent swap, proper prefix; every single insertion of one of '
-                     f'{len(APPEND1) if tier == "thorough" else 7} tokens at every position] + {20000 if tier == "thorough" else 1000} seeded 1..4-step mutations',
+                     f'{len(APPEND1) if tier == "thorough" else 5} tokens at every position] + {20000 if tier == "thorough" else 1000} seeded 1..4-step mutations',
             'rule': 'one evaluation = one distinct cell text; the reference lexer/parser reads the COMPLETE text: not a formula -> must raise '
                     'E2PyclParserException; formula -> exception or the value of the complete text (value clause only where the reference '
                     'evaluator defines it and precedence is not involved).  classes: ' + ', '.join(f'{k}:{v}' for k, v in sorted(st.items())),
@@ -1332,7 +1332,7 @@ def ws_jobs(tier, rng):
 def check_whitespace(tier, rng):
     t0 = time.time()
     jobs = ws_jobs(tier, rng)
-    res = _pool_map(_w_variants, jobs)
+    res = _pool_map(_w_variants, jobs, chunk=1)
     fails = [{'key': k, 'what': w, 'replay': p} for r in res for k, w, p in r['fails']]
     # trailing white space: no invariance clause, but still whole-or-rejected
     tr = _pool_map(_w_single, [(b + w, 'file', False) for b in BASES for w in (' ', '\n', '\t ')])
@@ -1387,14 +1387,16 @@ def sep_jobs(tier, rng):
         base = list(b)
         for p in pos:
             base[p] = ','
-        jobs.append((''.join(base), sorted(set(vs)), 'separator'))
+        vs = sorted(set(vs))
+        for i in range(0, len(vs), 12):
+            jobs.append((''.join(base), vs[i:i + 12], 'separator'))
     return jobs
 
 
 def check_separators(tier, rng):
     t0 = time.time()
     jobs = sep_jobs(tier, rng)
-    res = _pool_map(_w_variants, jobs)
+    res = _pool_map(_w_variants, jobs, chunk=1)
     fails = [{'key': k, 'what': w, 'replay': p} for r in res for k, w, p in r['fails']]
     return {'name': 'C05.monitor.separators',
             'bound': f"{len(SEP_BASES)} formulas (every function that takes 2+ arguments, nested calls, unions, texts containing ',' and ';', "
@@ -1581,7 +1583,8 @@ def ctx_cases(tier):
 def check_contexts(tier, rng):
     t0 = time.time()
     cases = ctx_cases(tier)
-    res = _pool_map(_w_ctx, cases)
+    cases.sort(key=lambda c: (c['kind'] not in ('nest', 'parens'), -c.get('n', 0)))      # the slow ones first
+    res = _pool_map(_w_ctx, cases, chunk=1)
     fails = [{'key': r['case']['key'], 'what': r['text'], 'replay': {'kind': 'ctx', 'case': r['case']}} for r in res if not r['ok']]
     return {'name': 'C05.monitor.contexts',
             'bound': 'malformed texts placed in far rows (101, 150, 1001), far columns (AB, AAA' + (', XFD, ZZ' if tier == 'thorough' else '')
